@@ -460,6 +460,27 @@ Definition row_wf (r : row) : bool :=
   && forallb (fun p => existsb (pair_eqb p) sf) (r_fields r)
   && (length sf =? length (r_fields r))%nat && nodupb (map fst sf).
 
+(* ---- pairwise disjointness of the rows: two rows whose FIXED bits differ somewhere can never produce the same word ---- *)
+(* signature of a row: (id, fixed-bit value, fixed-bit mask) *)
+Definition row_sig (r : row) : Z * Z * Z := (r_id r, tfixed (r_tmpl r), tmask (r_tmpl r)).
+Definition sig_conflict (f1 m1 f2 m2 : Z) : bool := negb (Z.land (Z.lxor f1 f2) (Z.land m1 m2) =? 0).
+(* ov: the recorded pairs of rows whose fixed bits do NOT separate them (same mnemonic written in two forms, aliases, a general form and
+   its special cases), with a class tag *)
+Definition in_overlap (ov : list (Z * Z * Z)) (i1 i2 : Z) : bool :=
+  existsb (fun p => let '(a, b, _) := p in ((a =? i1) && (b =? i2)) || ((a =? i2) && (b =? i1))) ov.
+Definition sig_ok (ov : list (Z * Z * Z)) (a b : Z * Z * Z) : bool :=
+  let '(i1, f1, m1) := a in let '(i2, f2, m2) := b in
+  (* if-then-else, not orb: the virtual machine evaluates function arguments eagerly *)
+  if i1 =? i2 then true else if sig_conflict f1 m1 f2 m2 then true else in_overlap ov i1 i2.
+Definition sigs_pairwise_ok (ov : list (Z * Z * Z)) (sigs : list (Z * Z * Z)) : bool :=
+  forallb (fun a => forallb (sig_ok ov a) sigs) sigs.
+(* the recorded list is tight: every recorded pair consists of two rows of the list whose fixed bits do not conflict *)
+Definition sig_of (sigs : list (Z * Z * Z)) (i : Z) : option (Z * Z) :=
+  match find (fun x => let '(j, _, _) := x in j =? i) sigs with Some (_, f, m) => Some (f, m) | None => None end.
+Definition overlap_tight (ov : list (Z * Z * Z)) (sigs : list (Z * Z * Z)) : bool :=
+  forallb (fun p => let '(a, b, _) := p in
+     match sig_of sigs a, sig_of sigs b with Some (f1, m1), Some (f2, m2) => negb (sig_conflict f1 m1 f2 m2) | _, _ => false end) ov.
+
 (* ---- opcode constants of the assembler's EncodingData tables vs the database rows ---- *)
 (* entry = (instruction id, opcode word of the table row, class-variable bits, ids of the database rows of that instruction) *)
 Definition table_entry_ok (db : list row) (e : Z * Z * Z * list Z) : bool :=
